@@ -4,14 +4,16 @@
 EXTENDS Bimg
 Full == IOEnv.GEN_FULL = "1"
 RECURSIVE Prod(_, _, _)
+\* payload length menu of a segment: all of it, or (small form) without the "one below the nominal size" class
+Menu(sg, i) == IF Full \/ sg[i].size = 0 THEN ToSet(sg[i].lens) ELSE { n \in ToSet(sg[i].lens) : n # sg[i].size - 1 }
 Prod(sg, p, i) == IF i = 0 THEN {<<>>}
-                  ELSE { Append(f, x) : f \in Prod(sg, p, i - 1), x \in (IF p[i] THEN ToSet(sg[i].lens) ELSE {0}) }
+                  ELSE { Append(f, x) : f \in Prod(sg, p, i - 1), x \in (IF p[i] THEN Menu(sg, i) ELSE {0}) }
 Presents(sg) == { p \in [DOMAIN sg -> BOOLEAN] :
                     (\A i \in DOMAIN sg : ~sg[i].opt => p[i]) /\ (\A j \in DOMAIN sg : (sg[j].off < 0 /\ p[j]) => p[j - 1]) }   \* a dynamic segment needs its predecessor
 HasDyn(sg) == \E i \in DOMAIN sg : sg[i].off < 0
 \* requested starts: 0, every static segment start, one below (snaps up to it) and one above (snaps to the next, or is refused)
 Reqs(sg) == LET so == StaticOffsIn(sg)
-                all == {0} \cup so \cup { o - 1 : o \in so } \cup { o + 1 : o \in so }
+                all == {0} \cup so \cup { o + 1 : o \in so } \cup (IF Full THEN { o - 1 : o \in so } ELSE { Min((so \ {0}) \cup {1}) - 1 })
             IN { r \in all : r >= 0 /\ (HasDyn(sg) => r <= Max(so)) }    \* a start inside the dynamic part is not defined by the property
 \* dependent bounds are illegal in one quantifier: build the set by nesting
 Cases(t) == LET sg == Tables[t].segs IN
